@@ -21,9 +21,9 @@ func runRealChains14(c *Ctx) {
 	c.SetCases(asmCasesHdr, "AsmRun.mismatches")
 	c.shard = 12
 	files := map[string]string{"leases4.txt": c01Leases4, "leases6.txt": c01Leases6}
-	own4 := net.IP{10, 0, 0, 1}
+	own4 := net.IP{10, 0, 0, 2} // (not the TFTP / DNS / router addresses of the other plugins' arguments)
 	own6 := &dhcpv6.DUIDLL{HWType: iana.HWTypeEthernet, LinkLayerAddr: net.HardwareAddr{0, 0xde, 0xad, 0xbe, 0xef, 0}}
-	sid4 := chainPlug{"server_id", []string{"10.0.0.1"}}
+	sid4 := chainPlug{"server_id", []string{"10.0.0.2"}}
 	sid6 := chainPlug{"server_id", []string{"LL", "00:de:ad:be:ef:00"}}
 	without := func(ch []chainPlug) []chainPlug {
 		var out []chainPlug
